@@ -12,7 +12,7 @@ open(f,'w').write(s.replace(old,new,1))
 PY
 export GOFLAGS=-mod=mod GOPROXY=off GOSUMDB=off GOTOOLCHAIN=local
 (cd $(dirname $file) && go build . 2>&1 | head -5)
-git diff > /verif/.work/hm/$name.diff
+mkdir -p /verif/.work/hm; git diff > /verif/.work/hm/$name.diff
 cd /verif && ./check $prop --budget $budget > /verif/.work/hm/$name.out 2>&1; rc=$?
 git -C /repo checkout -- .
 echo "== $name vs $prop: rc=$rc $(grep -m1 -A1 '^VIOLATION\|^INFRA' /verif/.work/hm/$name.out | tr '\n' ' ' | cut -c1-230)"
